@@ -169,9 +169,9 @@ PROPS = {
         explanation="see level_text",
     ),
     "C03": dict(
-        level="model_checking",
-        level_text="Container: the real parse_tls_record_with_header body (sliced from /repo each run) is proved by Verus to be, per content type, the explicit accumulate-while-Ok loop over the per-message parser (many1(complete(p))), one blob for application data, one completed heartbeat, Switch error for all other 251 types - for every payload length; consequences proved as lemmas: a whole record never answers Incomplete, empty CCS/alert payloads and malformed first messages never yield a value, alerts decode pairwise in wire order with an odd trailing byte left as remainder. This is relative to the nom combinator contracts (complete / many1), which are assumptions in Verus and bounded Kani obligations on the real nom. Leaf message parsers: Kani harnesses on the compiled code (full-domain for CCS/alert, bounded for heartbeat / application data).",
-        level_note="Trusted: nom shim contracts for complete/many1 (Kani shim_* harnesses, bounded); 'fun_of(parse_x) is the function parse_x computes' for each abstract message parser (determinism of safe, state-free code) and 'remainder is never longer than the input' (checked as is_suffix in the Kani leaves); leaf contracts ccs_post/alert_post/appdata_post are assumed in Verus and are the assertions of fd_msg_ccs / fd_msg_alert / leaf_msg_appdata. One-step == two-step parsing is decided in C02 (plaintext glue), not here.",
+        level="proof",
+        level_text="Container: the real parse_tls_record_with_header body (sliced from /repo each run) is proved by Verus to be, per content type, the explicit accumulate-while-Ok loop over the per-message parser (many1(complete(p))), one blob for application data, one completed heartbeat, Switch error for all other 251 types - for every payload length; consequences proved as lemmas: a whole record never answers Incomplete, empty CCS/alert payloads and malformed first messages never yield a value, alerts decode pairwise in wire order with an odd trailing byte left as remainder. This is relative to the nom combinator contracts (complete / many1), which are assumptions in Verus and bounded Kani obligations on the real nom. Leaf message parsers: proved unbounded as well (Verus, unit messages: ChangeCipherSpec = the byte 1 else Error(Verify), Alert = level byte + description byte via the derive-generated TlsMessageAlert parser taken from the macro expansion, heartbeat, application data; unit dispatch_hs and the body units for handshake messages); Kani harnesses on the compiled code repeat them (full-domain for CCS/alert, bounded for heartbeat / application data).",
+        level_note="Trusted: nom shim contracts for complete/many1 (Kani shim_* harnesses, bounded); 'fun_of(parse_x) is the function parse_x computes' for each abstract message parser (determinism of safe, state-free code) and 'remainder is never longer than the input' (checked as is_suffix in the Kani leaves); leaf contracts ccs_post/alert_post/appdata_post are assumed in unit many; they are proved in unit messages (same statements, the CCS one stronger) and are the assertions of fd_msg_ccs / fd_msg_alert / leaf_msg_appdata on the compiled code. One-step == two-step parsing is decided in C02 (plaintext glue), not here.",
         technique="contract-based deductive verification: Verus on the extracted container + Kani contract harnesses for the leaf message parsers",
         verus=["many", "plaintext", "messages", "dispatch_hs"],
         standins=[dict(name="framing_boundaries", kind="bounded-execution", bound="declared lengths {0,1,2,3,16383..16385,16639..16641,32768,65535} x 3 content types x 8 prefix cuts, TLS raw/encrypted/plaintext/tls_parser + DTLS record (372 cases)", payload={"framing_boundary_check": 1})],
@@ -192,7 +192,7 @@ PROPS = {
         explanation="see level_text",
     ),
     "C04": dict(
-        level="model_checking",
+        level="proof",
         level_text="Dispatcher: unbounded deductive proof (Verus) on the real parse_tls_message_handshake body - type/u24 framing, type -> body-parser table for all 256 codes, body isolated to exactly the declared bytes before any body parser runs, exact consumption, Switch for unknown types, Incomplete(missing) for cut-off messages. Bodies: one Kani contract harness per body parser on the compiled code against an index-based reference decoder written from the RFCs (every field, order, presence/absence, every rejection rule of the property as its own assertion, pointer-exact slices): complete in byte contents and in every integer parameter, BOUNDED in input length. Unbounded as well (Verus, units bodies / bodies2 / hellos, on the real bodies): ClientHello (every field at its offset, session id present iff its length byte is non-zero, cipher and compression ids in wire order, optional extension block; session-id length > 32, odd or overlong cipher list, overlong compression list rejected, every cut-off mandatory field Incomplete), ServerHello for SSL 3.0..TLS 1.2 and the draft-18 layout incl. the legacy-version switch of both entry points (0x0300 without extensions, 0x0301..0x0303 with, 0x7f12 draft 18, everything else Error(Tag)), HelloRetryRequest, NewSessionTicket, CertificateStatus, NextProtocol, HelloRequest, the one-blob bodies ServerKeyExchange / ServerDone / CertificateVerify / Finished, and Certificate (unit certs: u24 list length, the list window is exactly the declared bytes, certificates = the explicit accumulate-while-Ok loop of the u24-prefixed entry parser over the window, a list longer than the body is Incomplete) and CertificateRequest (unit certreq: both layouts field by field - certificate types = the counted bytes, signature algorithms = the explicit be_u16 loop over exactly the declared window, distinguished names = the explicit loop of the u16-prefixed name reader over exactly the declared window - and the entry point = the TLS 1.2 layout made complete, else the older layout made complete). In Kani ClientHello is verified modularly against the contracts of the cipher/compression list helpers, which have their own leaf harnesses (the same contracts are what the Verus proof of ClientHello assumes for them).",
         level_note="Trusted: nom shim contracts be_u8/be_u24/take (Kani shim_be, shim_take); body parsers are uninterpreted in Verus with the assumed fact 'on success returns its own variant' (asserted by each Kani leaf); reference decoders in /verif/kani/pub_c04_handshake.rs are hand-written from RFC 5246/8446/5077/6066; contract stubs for parse_cipher_suites/parse_compressions_algs return an unconstrained (dummy) list content - the caller never inspects it.",
         technique="contract-based deductive verification: Verus on the extracted dispatcher + Kani contract harnesses per body parser (modular for ClientHello)",
@@ -206,9 +206,9 @@ PROPS = {
         explanation="see level_text",
     ),
     "C10": dict(
-        level="model_checking",
+        level="proof",
         level_text="Unbounded deductive proofs (Verus) on the real parse_dtls_message_handshake (12-byte header fields verbatim, take(fragment_length), is_fragment <=> offset>0 or fragment_length<length, Fragment of exactly fragment_length bytes, body table, Switch otherwise), parse_dtls_plaintext_record (13-byte header, cap, Incomplete iff truncated with exact Needed, glue), parse_dtls_record_with_header and parse_dtls_plaintext_records (explicit loops). The 13-byte header decode is a full-domain Kani proof; the body parsers ClientHello with cookie (unit hellos: every field at its offset incl. the cookie between session id and cipher suites, all rejection rules, every cut-off Incomplete) and HelloVerifyRequest (unit bodies2) are proved unbounded in Verus as well and cross-checked by Kani contract harnesses on the compiled code, bounded in input length.",
-        level_note="Trusted: nom shims (be_u8/16/24, take, map, map_parser, complete, many1); DTLS body parsers uninterpreted in Verus; R9 (closure signature + ensures), R10 (constructor eta-expanded into a closure with its trivial contract); ServerHello/Certificate/ServerDone/ClientKeyExchange bodies are the C04 parsers (checked there).",
+        level_note="Trusted: nom shims (be_u8/16/24, take, map, map_parser, complete, many1); DTLS body parsers uninterpreted in unit dtls (proved in units hellos / bodies2); R9 (closure signature + ensures), R10 (constructor eta-expanded into a closure with its trivial contract); ServerHello/Certificate/ServerDone/ClientKeyExchange bodies are the C04 parsers (checked there).",
         technique="contract-based deductive verification: Verus on extracted dispatcher/record glue + Kani full-domain header harness and leaf harnesses",
         verus=["dtls", "dtls_many", "bodies2", "hellos"],
         standins=[dict(name="framing_boundaries", kind="bounded-execution", bound="declared lengths {0,1,2,3,16383..16385,16639..16641,32768,65535} x 3 content types x 8 prefix cuts, TLS raw/encrypted/plaintext/tls_parser + DTLS record (372 cases)", payload={"framing_boundary_check": 1})],
@@ -237,7 +237,7 @@ PROPS = {
         explanation="see level_text",
     ),
     "C14": dict(
-        level="model_checking",
+        level="proof",
         level_text="Framing, unbounded (Verus, unit sct, on the real closure-free bodies): the single-SCT parser is the content parser's verdict on EXACTLY the declared u16 window, consuming exactly one length-prefixed entry; the list parser is the explicit accumulate-while-Ok loop of the single-entry parser over EXACTLY the declared list window (entries in wire order, an entry or list longer than its container never yields an SCT). Content decode, unbounded as well (Verus, unit sct_content): version = byte 0, log id = bytes 1..33, timestamp = the big-endian u64 at 33, extensions = the u16-prefixed field at 41, then hash byte, signature byte and the u16-prefixed signature, remainder = what follows, every truncation Incomplete - for every input length. Cross-check on the compiled code: Kani contract harness - single SCT entry (u16 prefix, version, 32-byte log id by pointer, be64 timestamp over the full range, u16 extensions, hash/signature bytes, u16 signature, exact consumption; a field cut off by the entry length never yields an SCT) on inputs <= 52 bytes; list framing (u16 total, confinement, entry longer than the list / list longer than the input never yields an SCT) on short inputs. Bounded in input length; the n-entry in-order clause rests on the many0 shim contract (Kani shim_many0).",
         level_note="The field-by-field decode of one SCT is a Verus proof relative to be_u64 (Kani shim_be64) and to 'try_into of the 32 taken bytes is the same 32 bytes' (parse_log_id is external_body: slice-to-array conversion is outside the subset; Kani leaf_sct_entry asserts the log id by pointer), repeated by bounded model checking (input <= 52 bytes) on the compiled code; the framing/ordering part is a Verus proof relative to the nom shim contracts (map_parser, length_data, take, many0, complete: Kani shim_* harnesses, bounded) and to 'fun_of(parse_ct_signed_certificate_timestamp) is the function it computes'. R11 (operand of `?` bound to a local) is applied to the list parser.",
         technique="contract-based deductive verification: Verus on the extracted entry/list framing (unbounded) and content decode (unbounded) + Kani contract harness for the SCT content decode on the compiled code (bounded)",
